@@ -49,7 +49,9 @@ PendingCall(e) ==
 (* a new key into a full map) takes the node lock and then the index lock.  The record "hang" says *)
 (* that no call completed for 20 s while the listed calls were in flight.  Trigger: at least two   *)
 (* calls are stuck and one of them is a put.  The strict contract has no action for "hang".        *)
-G6(e) == subj.domain = "lrulin" /\ e.op = "hang" /\ Len(e.stuck) >= 2 /\ "put" \in SeqRange(e.stuck)
+\* both findings are FIXED in /repo (39242c4): their deviations are disabled, a recurrence is a VIOLATION
+LinKnownIds == {}
+G6(e) == "C17-KF6" \in LinKnownIds /\ subj.domain = "lrulin" /\ e.op = "hang" /\ Len(e.stuck) >= 2 /\ "put" \in SeqRange(e.stuck)
 KF6(e) == G6(e) /\ UNCHANGED <<lru, loc, last>>
 
 (* C17-KF7 (known finding, consulted in KF mode only): the calls of LruMap are not atomic - get,  *)
@@ -62,7 +64,7 @@ KF6(e) == G6(e) /\ UNCHANGED <<lru, loc, last>>
 RunRecs == (base + 1)..(base + subj.nops)
 Mutating(j) == Rec[j].op \in {"put", "remove", "hang"}
 Overlap(i, j) == Rec[i].t /= Rec[j].t /\ ~(Rec[j].res < Rec[i].inv) /\ ~(Rec[i].res < Rec[j].inv)
-G7(i) == /\ subj.domain = "lrulin" /\ subj.threads > 1 /\ Rec[i].op /= "hang" /\ ~Rec[i].pending
+G7(i) == /\ "C17-KF7" \in LinKnownIds /\ subj.domain = "lrulin" /\ subj.threads > 1 /\ Rec[i].op /= "hang" /\ ~Rec[i].pending
          /\ \E j \in RunRecs \ {i} : Rec[j].op /= "hang" /\ Mutating(j) /\ Overlap(i, j)
 
 LinNext ==
